@@ -202,7 +202,7 @@ example : exM.solve = [1 / 3, 1 / 3, 2 / 3] := by
     every hypothesis. -/
 section Example
 local instance : Transc ℚ := ⟨id, id, id, id, fun x _ => x⟩
-local instance : Consts ℚ := ⟨10, 3, 1 / 17, 1 / 9, -10000000000, 3⟩
+local instance : Consts ℚ := ⟨10, 3, 1 / 17, 1 / 9, -10000000000, 3, 1 / 10 ^ 100⟩
 local instance : MlpgConsts ℚ := ⟨10 ^ 19, 1 / 10 ^ 19, 10 ^ 38⟩
 
 def exS : StreamIn ℚ :=
